@@ -612,6 +612,8 @@ def run(ctx):
     from . import c12 as _c12
     from .c03 import _Only as _Only03
     from .c06 import _run_as as _run_as06
+    from . import c13 as _c13
+    _run_as06(_c13, _Only03(ctx, "C01-R9", ("key-constant", "key-source", "key-compare", "key-text", "value-parse", "value-text", "value-layout")), ctx)
     _run_as06(_c12, _Only03(ctx, "C01-R9", ("regex-language", "regex-anchor", "regex-groups", "regex-group-span", "regex-use", "haystack", "parse-u32", "group-1", "some-payload", "anchor|")), ctx)
     _finder.rule_macro_filter(ctx, facts, "C01-R7")
     _finder.rule_filter_before_entry(ctx, facts, "C01-R7")
